@@ -44,7 +44,7 @@ def pair_of(s: str) -> str:
     return 'NS' if s in 'NS' else 'EW'
 
 
-def board(dealer: str, declarer: Optional[str], extra: int = 0, winners: int = 0, vul: str = 'NONE', alerts=(), illegal_at=None) -> dict:
+def board(dealer: str, declarer: Optional[str], extra: int = 0, winners: int = 0, vul: str = 'NONE', alerts=(), illegal_at=None, fault=None) -> dict:
     if declarer is None:
         b = dict(dealer=dealer, vul=vul, passed_out=True, n_calls=4, declarer=None, winners=WINNERS[0], alerts=tuple(alerts))
     else:
@@ -54,6 +54,8 @@ def board(dealer: str, declarer: Optional[str], extra: int = 0, winners: int = 0
                  alerts=tuple(a if a >= 0 else n_calls + a for a in alerts))        # a negative index counts from the end: -2 = a closing pass
     if illegal_at is not None:
         b['illegal_at'] = illegal_at
+    if fault is not None:
+        b['fault'] = fault      # (kind, point, at): see World.fault
     return b
 
 
@@ -65,6 +67,10 @@ def val_id(val: dict) -> str:
         else:
             w = WINNERS.index(b['winners']) if b['winners'] in WINNERS else 'x'
             out.append(f'{b["dealer"]}/{b["declarer"]}/{b["n_calls"]}c/w{w}/{b["vul"]}' + ('/alert' if b['alerts'] else ''))
+        if b.get('illegal_at') is not None:
+            out[-1] += f'/illegal call #{b["illegal_at"]}'
+        if b.get('fault'):
+            out[-1] += f'/{b["fault"][0]} at {b["fault"][1]} {b["fault"][2]}'
     return ' + '.join(out) + ('' if val.get('teams', ('A', 'B')) == ('A', 'B') else f' teams={val["teams"]}')
 
 
@@ -582,7 +588,8 @@ def a_log(w: World, val: dict, tag: str) -> List[Ob]:
         req(got_ph == want_ph, 'play logged = the cards the seats sent, trick by trick, with the leaders', 'log field play_history', f'play history logged differs from the cards sent: first difference {_first_diff(got_ph, want_ph)}')
         dpair = f0._attr(w.seat(b['declarer']), 'pair')
         tt = rec.get('taken_trick_num')
-        req(tt == ATricks(k, dpair), 'trick count is the one of declarer\'s side', 'log field taken_trick_num', f'trick count logged is {tt!r}, declarer {b["declarer"]} plays for {dpair.name}')
+        want_tt = ATricks(k, dpair, tricks_of_declarer(b))
+        req(isinstance(tt, ATricks) and tt == want_tt, 'trick count is the one of declarer\'s side', 'log field taken_trick_num', f'trick count logged is {tt!r}, declarer {b["declarer"]} plays for {dpair.name} and takes {int(want_tt)}')
         sc = rec.get('scores')
         ok = False
         why = f'scores logged: {sc!r}'
@@ -591,9 +598,21 @@ def a_log(w: World, val: dict, tag: str) -> List[Ob]:
             if dpair in sc and len(opp) == 1 and getattr(opp[0], 'name', None) in ('NS', 'EW'):
                 a, o = sc[dpair], sc[opp[0]]
                 ok = isinstance(a, AScore) and isinstance(o, AScore) and a.sign == 1 and o.sign == -1 and a.contract == want_con and o.contract == want_con and \
-                    a.tricks == ATricks(k, dpair) and o.tricks == a.tricks
+                    isinstance(a.tricks, ATricks) and a.tricks == want_tt and isinstance(o.tricks, ATricks) and o.tricks == a.tricks
         req(ok, "declarer's side gets calc_score(contract, its tricks), the other side the negative", 'log field scores', why + f'; expected {{{dpair.name}: score(contract, tricks of {dpair.name}), other: -score}}')
     return obs
+
+
+def tricks_of_declarer(b: dict) -> int:
+    """Tricks won by declarer's side under the winner script of the board (winners[t] = seats clockwise from the leader of trick t
+    to its winner; the opening leader sits on declarer's left)."""
+    leader = nxt(b['declarer'])
+    n = 0
+    for steps in b['winners'][:13]:
+        leader = nxt(leader, steps)
+        if leader in (b['declarer'], partner(b['declarer'])):
+            n += 1
+    return n
 
 
 def _first_diff(a, b):
@@ -621,7 +640,108 @@ def a_policy(w: World, val: dict, tag: str) -> List[Ob]:
     return obs
 
 
-ANALYSERS = {'policy': a_policy, 'liveness': a_liveness, 'entitlement': a_entitlement, 'duality': a_duality, 'log': a_log}
+def abort_family(tier: str) -> List[tuple]:
+    """Sessions of three boards in which board k (1..3) is hit by an offending action or an interrupt at a given point."""
+    out = []
+    n = 0
+    kinds = []
+    # auction: illegal call (engine answers ILLEGAL), unparseable call, interrupt - at the first, a middle and the last call
+    for j in (0, 2, -1):
+        kinds.append(('illegal', 'call', j))
+        kinds.append(('malformed', 'parse_call', j))
+        kinds.append(('interrupt', 'call', j))
+    # play: card refused by the engine (not held / out of turn), unparseable card, interrupt - first card, mid-trick, last card of the board
+    for at in ((1, 0), (1, 3), (7, 2), (13, 3)):
+        kinds.append(('refuse', 'card', at))
+        kinds.append(('malformed', 'parse_card', at))
+    kinds.append(('interrupt', 'card', (5, 1)))
+    kinds.append(('interrupt', 'card', (13, 3)))
+    quick_ks = None
+    if tier == 'quick':
+        # every kind of offence at one point each, rotating over the boards; the illegal call on every board
+        kinds = [('illegal', 'call', 0), ('illegal', 'call', -1), ('malformed', 'parse_call', 2), ('interrupt', 'call', 0), ('refuse', 'card', (1, 0)),
+                 ('refuse', 'card', (13, 3)), ('malformed', 'parse_card', (7, 2)), ('interrupt', 'card', (5, 1)), ('interrupt', 'card', (13, 3)),
+                 ('malformed', 'parse_call', -1), ('refuse', 'card', (7, 2))]
+        quick_ks = {i: ((1, 2, 3) if i == 0 else (i % 3 + 1,)) for i in range(len(kinds))}
+    for ki, (kind, point, at) in enumerate(kinds):
+        for k in (1, 2, 3):
+            if quick_ks is not None and k not in quick_ks[ki]:
+                continue
+            d = SEATS[(n + k) % 4]
+            c = SEATS[(n + 2 * k + 1) % 4]
+            bs = [board(d, c, 1, (n + 1) % 5, VULS[n % 4]), board(nxt(d), None if (n % 3 == 0 and k != 2) else nxt(c), 2, (n + 2) % 5, VULS[(n + 1) % 4]),
+                  board(nxt(d, 2), nxt(c, 2), 0, (n + 3) % 5, VULS[(n + 2) % 4])]
+            tgt = bs[k - 1]
+            if tgt['passed_out']:
+                # the hit board must be played when the fault is in the play; in the auction a passed-out board has 4 calls
+                if point in ('card', 'parse_card'):
+                    bs[k - 1] = tgt = board(tgt['dealer'], nxt(tgt['dealer']), 1, (n + 2) % 5, tgt['vul'])
+            a = at
+            if point in ('call', 'parse_call'):
+                a = at if at >= 0 else tgt['n_calls'] + at
+                a = min(a, tgt['n_calls'] - 1)
+            if kind == 'illegal':
+                tgt['illegal_at'] = a
+            else:
+                tgt['fault'] = (kind, point, a)
+            out.append((dict(boards=bs, abort=k), POLICIES[n % len(POLICIES)]))
+            n += 1
+    return out
+
+
+def a_abort(w: World, val: dict, tag: str) -> List[Ob]:
+    """C13: a session abandoned at board k leaves a complete, parseable log with exactly the k-1 finished boards."""
+    import json as _json
+    obs = []
+    R = 'C13.R6'
+    S = 'bridge_env/network_bridge/server.py'
+    k = val['abort']
+    main = next(p for p in w.sched.procs if p.name == 'main')
+    hit = val['boards'][k - 1]
+    what = f'illegal call #{hit["illegal_at"]}' if hit.get('illegal_at') is not None else f'{hit["fault"][0]} at {hit["fault"][1]} {hit["fault"][2]}'
+    if main.state != 'raised':
+        obs.append(Ob(R, False, 'the table manager abandons the session', w_where(w, main), 'Server.run', f'offending action does not stop the session ({what.split(" at ")[0].split(" #")[0]})',
+                      f'[{tag}] board {k} is hit by {what} but the table manager goes on (main thread ends {main.state}): the offending action is ignored '
+                      f'and the boards logged from here on are not the boards played'))
+        return obs
+    fl = w.fs.get('out.json')
+    if fl is None:
+        others = sorted(w.fs)
+        obs.append(Ob(R, False, 'the output file exists after the abort', S, 'Server.run', 'no file at the configured output path after an abort',
+                      f'[{tag}] session abandoned at board {k} ({what}): there is no file at the configured output path'
+                      + (f'; what was written is in {others} (moved into place only after a complete session?)' if others else '')))
+        return obs
+
+    def piece(x):
+        if isinstance(x, Tok) and x.kind == 'record':
+            return '{"record": %d}' % x.n
+        if isinstance(x, AStr):
+            return ''.join(piece(q) for q in x.parts)
+        return x if isinstance(x, str) else '\x00'
+    text = ''.join(piece(x) for x in fl.writes)
+    where = w_where(w, main)
+    try:
+        doc = _json.loads(text)
+        ok = isinstance(doc, dict) and len(doc) == 1 and isinstance(next(iter(doc.values())), list)
+    except ValueError:
+        doc, ok = None, False
+    obs.append(Ob(R, ok, f'[{tag}] after the abort at board {k} ({what}) the output file is one parseable JSON document', S, 'Server.run',
+                  'output file after an abort is not a complete JSON document',
+                  f'[{tag}] session abandoned at board {k} ({what}, exception raised at {where}): the output file reads {text[:60]!r}...{text[-30:]!r} - not a complete JSON document'))
+    if ok:
+        recs = next(iter(doc.values()))
+        got = [r.get('record') if isinstance(r, dict) else r for r in recs]
+        obs.append(Ob(R, got == list(range(1, k)), f'[{tag}] the log holds exactly the {k - 1} board(s) finished before the abort', S, 'Server.run',
+                      'boards in the log after an abort',
+                      f'[{tag}] session abandoned at board {k} ({what}): the log holds the records {got}, finished before the abort were boards {list(range(1, k))}'))
+        done = [r for r in w.log_records]
+        obs.append(Ob(R, len(done) == k - 1, f'[{tag}] no record is written for the abandoned board', S, 'Server.run', 'record written for the abandoned board',
+                      f'[{tag}] {len(done)} record(s) written although only {k - 1} board(s) were finished'))
+    obs.append(Ob(R, fl.closed, f'[{tag}] the output file is closed', S, 'Server.run', 'output file left open after an abort', f'[{tag}] the output file is not closed after the abort at board {k}'))
+    return obs
+
+
+ANALYSERS = {'abort': a_abort, 'policy': a_policy, 'liveness': a_liveness, 'entitlement': a_entitlement, 'duality': a_duality, 'log': a_log}
 
 _REPO: Dict[str, Repo] = {}
 
